@@ -27,6 +27,21 @@ type Engine struct {
 	effCache   map[*ssa.Function]*Effects
 	funcs      map[string]*ssa.Function
 	loadSecs   float64
+	inlineDeps map[string]bool // dependency packages whose small functions are followed (built on demand)
+	built      map[*ssa.Package]bool
+}
+
+// ensureBuilt builds the SSA of allow-listed dependency packages on demand so
+// that their small getters can be followed instead of havocked.
+func (e *Engine) ensureBuilt(f *ssa.Function) {
+	if f.Pkg == nil || len(f.Blocks) > 0 {
+		return
+	}
+	if !e.inlineDeps[f.Pkg.Pkg.Path()] || e.built[f.Pkg] {
+		return
+	}
+	e.built[f.Pkg] = true
+	f.Pkg.Build()
 }
 
 func (e *Engine) typesPkg(path string) *types.Package {
@@ -57,13 +72,42 @@ func (e *Engine) pkgByName(name string) *types.Package {
 }
 
 func loadEngine(repo string, patterns []string) (*Engine, error) {
+	env := append(os.Environ(), "GOFLAGS=-mod=mod", "GOPROXY=off", "GOSUMDB=off", "GOTOOLCHAIN=local")
+	// pass 1 (cheap): the module-internal import closure of the requested packages
+	cfg0 := &packages.Config{Mode: packages.NeedName | packages.NeedImports | packages.NeedDeps | packages.NeedModule,
+		Dir: repo, BuildFlags: []string{"-tags=verif"}, Env: env}
+	pre, err := packages.Load(cfg0, patterns...)
+	if err != nil {
+		return nil, err
+	}
+	modPath := ""
+	for _, p := range pre {
+		if p.Module != nil {
+			modPath = p.Module.Path
+		}
+	}
+	roots := map[string]bool{}
+	packages.Visit(pre, nil, func(p *packages.Package) {
+		if modPath != "" && (p.PkgPath == modPath || strings.HasPrefix(p.PkgPath, modPath+"/")) {
+			roots[p.PkgPath] = true
+		}
+	})
+	var rootList []string
+	for r := range roots {
+		rootList = append(rootList, r)
+	}
+	sort.Strings(rootList)
+	if len(rootList) == 0 {
+		rootList = patterns
+	}
+	// pass 2: syntax + types for module packages, export data for everything else
 	cfg := &packages.Config{
-		Mode:       packages.LoadAllSyntax,
+		Mode:       packages.LoadSyntax | packages.NeedModule,
 		Dir:        repo,
 		BuildFlags: []string{"-tags=verif"},
-		Env:        append(os.Environ(), "GOFLAGS=-mod=mod", "GOPROXY=off", "GOSUMDB=off", "GOTOOLCHAIN=local"),
+		Env:        env,
 	}
-	pkgs, err := packages.Load(cfg, patterns...)
+	pkgs, err := packages.Load(cfg, rootList...)
 	if err != nil {
 		return nil, err
 	}
@@ -79,9 +123,14 @@ func loadEngine(repo string, patterns []string) (*Engine, error) {
 	if nerr > 0 {
 		return nil, fmt.Errorf("%d load errors", nerr)
 	}
-	prog, _ := ssautil.AllPackages(pkgs, ssa.InstantiateGenerics)
+	prog, _ := ssautil.Packages(pkgs, ssa.InstantiateGenerics)
 	e := &Engine{repo: repo, prog: prog, pkgs: pkgs, byPath: map[string]*packages.Package{}, typeTags: map[string]int{},
-		effCache: map[*ssa.Function]*Effects{}, funcs: map[string]*ssa.Function{}}
+		effCache: map[*ssa.Function]*Effects{}, funcs: map[string]*ssa.Function{}, built: map[*ssa.Package]bool{},
+		inlineDeps: map[string]bool{
+			"github.com/lightningnetwork/lnd/lnrpc":           true,
+			"github.com/lightningnetwork/lnd/lnrpc/routerrpc": true,
+			"github.com/elementsproject/glightning/glightning": true,
+		}}
 	packages.Visit(pkgs, nil, func(p *packages.Package) {
 		e.byPath[p.PkgPath] = p
 	})
@@ -160,6 +209,12 @@ func (e *Engine) verifyContract(ct *Contract) (x *Exec, err error) {
 	}
 	pkg := e.typesPkg(ct.PkgPath)
 	env := &specEnv{x: x, names: names, st: st0, old: st0, pkg: pkg, sig: fn.Signature}
+	for i, p := range fn.Params {
+		x.cexBase = append(x.cexBase, x.cexOf("in."+p.Name(), args[i], st0, 1)...)
+	}
+	for g, v := range st0.ghost {
+		x.cexBase = append(x.cexBase, x.cexOf("in.ghost."+g, v, st0, 0)...)
+	}
 	x.specDepth++
 	var reqs []Term
 	for _, cl := range ct.Req {
@@ -172,7 +227,7 @@ func (e *Engine) verifyContract(ct *Contract) (x *Exec, err error) {
 	entry := st0.clone()
 	rets := x.runFunc(fn, args, nil, st0, TTrue, 0, true, env)
 	var liveReach []Term
-	for _, r := range rets {
+	for ri, r := range rets {
 		if r.panicked {
 			continue
 		}
@@ -183,7 +238,16 @@ func (e *Engine) verifyContract(ct *Contract) (x *Exec, err error) {
 			g := x.evalBool(cl.Expr, env2, r.reach)
 			x.specDepth--
 			name := fmt.Sprintf("%s#ensures[%s]", x.fname(), clauseLabel(cl, k))
-			x.addObl(name, "ensures", cl.Text, clauseProps(cl, ct), OblPart{NegGoal: And(r.reach, Not(g)), NAssume: len(x.c.Assumes), Where: "return"}, false)
+			cex := append([]CexTerm{}, x.cexBase...)
+			for j, rv := range r.vals {
+				cex = append(cex, x.cexOf(fmt.Sprintf("out.result%d", j), rv, r.st, 1)...)
+			}
+			for i, p := range fn.Params {
+				if _, isPtr := p.Type().Underlying().(*types.Pointer); isPtr {
+					cex = append(cex, x.cexOf("out."+p.Name(), args[i], r.st, 1)...)
+				}
+			}
+			x.addObl(name, "ensures", cl.Text, clauseProps(cl, ct), OblPart{NegGoal: And(r.reach, Not(g)), NAssume: len(x.c.Assumes), Where: fmt.Sprintf("return #%d", ri), Cex: cex}, false)
 		}
 		if ct.HasAssigns {
 			x.frameObligations(ct, fn, env, entry, r)
@@ -345,4 +409,40 @@ func ghostName(a ast.Expr) (string, bool) {
 		}
 	}
 	return "", false
+}
+
+// cexOf lists the scalar leaves of a value (and, for pointers to structs, of
+// the pointee's fields in state st, to the given depth) for counterexamples.
+func (x *Exec) cexOf(name string, v Val, st *State, depth int) []CexTerm {
+	var out []CexTerm
+	if v.A != nil || v.C != nil || v.T == nil {
+		return nil
+	}
+	sh := shape(v.T)
+	if len(sh) != len(v.L) {
+		return nil
+	}
+	for i, l := range sh {
+		n := name
+		if l.Path != "" {
+			n += "." + l.Path
+		}
+		out = append(out, CexTerm{n, v.L[i]})
+	}
+	if depth > 0 {
+		if pt, ok := v.T.Underlying().(*types.Pointer); ok {
+			if stt, ok := pt.Elem().Underlying().(*types.Struct); ok && len(v.L) == 1 {
+				for _, l := range shape(pt.Elem()) {
+					if l.Sort.IsArr() {
+						continue
+					}
+					key := objKey(pt.Elem(), l.Path)
+					arr := x.heapGet(st, key, SArr(SRef, l.Sort))
+					out = append(out, CexTerm{name + "->" + l.Path, Select(arr, v.L[0])})
+				}
+				_ = stt
+			}
+		}
+	}
+	return out
 }
